@@ -236,7 +236,7 @@ def namedtuple_types(trees) -> dict:
             if isinstance(node, ast.Assign) and len(node.targets) == 1 and isinstance(node.targets[0], ast.Name) and isinstance(node.value, ast.Call):
                 fn = node.value.func
                 nm = fn.id if isinstance(fn, ast.Name) else fn.attr if isinstance(fn, ast.Attribute) else ''
-                if nm == 'namedtuple' and len(node.value.args) >= 2:
+                if nm.lstrip('_') == 'namedtuple' and len(node.value.args) >= 2:
                     flds = node.value.args[1]
                     names = None
                     if isinstance(flds, (ast.List, ast.Tuple)) and all(isinstance(e, ast.Constant) and isinstance(e.value, str) for e in flds.elts):
